@@ -118,13 +118,16 @@ def main(argv):
         import copy
         byname = {u['name']: u for u in units}
         for k in known.get('findings', []):
-            if k.get('property') != a.prop or not k.get('probe_defs') or k.get('unit') not in byname:
+            if k.get('property') != a.prop or not (k.get('probe_defs') or k.get('probe_undef')) or k.get('unit') not in byname:
                 continue
             pu = copy.deepcopy(byname[k['unit']])
             pu['name'] = '%s#probe:%s' % (k['unit'], k['id'])
             for tier in ('quick', 'thorough'):
                 pu['defs'].setdefault(tier, {})
-            pu['defs']['quick'].update(k['probe_defs'])
+            pu['defs']['quick'].update(k.get('probe_defs') or {})
+            for tier in ('quick', 'thorough'):
+                for nm in k.get('probe_undef', []):
+                    pu['defs'][tier].pop(nm, None)
             pu['probe_of'] = k
             pu['min_obl'] = 1
             probes.append(pu)
